@@ -132,6 +132,25 @@ func (r *Report) Unlisted(known *KnownFindings) int {
 	return n
 }
 
+// UnlistedViolations returns the violations the known-findings file does not list (floor
+// shortfalls excluded), sorted by rule and construct.
+func (r *Report) UnlistedViolations(known *KnownFindings) []Obligation {
+	knownKey := map[string]bool{}
+	for _, f := range known.Findings {
+		if f.Property == r.Prop {
+			knownKey[f.Rule+" "+f.Construct] = true
+		}
+	}
+	var out []Obligation
+	for _, o := range r.Obs {
+		if o.Verdict == Violation && !knownKey[o.Key()] {
+			out = append(out, o)
+		}
+	}
+	sort.SliceStable(out, func(i, j int) bool { return out[i].Key() < out[j].Key() })
+	return out
+}
+
 // Finish applies floors and known findings, writes evidence, prints the contract lines and
 // returns the process exit code.
 func (r *Report) Finish(verifDir string, known *KnownFindings) int {
